@@ -135,3 +135,36 @@ def mapPush (m : List (Bytes × List Bytes)) (k x : Bytes) : List (Bytes × List
   | (k', vs) :: rest => if k' = k then (k', vs ++ [x]) :: rest else (k', vs) :: mapPush rest k x
 
 end SigV4.Rust
+
+namespace SigV4.Rust
+
+/-- `m.get(k)` on a map kept as its entry list (keys unique). -/
+def mapGet (m : List (Bytes × List Bytes)) (k : Bytes) : Option (List Bytes) :=
+  match m with
+  | [] => none
+  | (k', vs) :: rest => if k' = k then some vs else mapGet rest k
+
+end SigV4.Rust
+
+namespace SigV4.Rust
+
+/-- `Ord for str` / `[u8]`: bytewise lexicographic, a proper prefix first. -/
+def strLe : Bytes → Bytes → Bool
+  | [], _ => true
+  | _ :: _, [] => false
+  | a :: as, b :: bs => a < b || (a == b && strLe as bs)
+
+/-- `Ord for (&str, &str)`: by first component, then by second. -/
+def pairLe (x y : Bytes × Bytes) : Bool := if x.1 = y.1 then strLe x.2 y.2 else strLe x.1 y.1
+
+def insertPair (x : Bytes × Bytes) : List (Bytes × Bytes) → List (Bytes × Bytes)
+  | [] => [x]
+  | y :: ys => if pairLe x y then x :: y :: ys else y :: insertPair x ys
+
+/-- `v.sort()` / `v.sort_unstable()` on a vector of string pairs: the sorted rearrangement (for a total order it is unique,
+so which algorithm produces it does not matter; written here as insertion sort). -/
+def sortPairs : List (Bytes × Bytes) → List (Bytes × Bytes)
+  | [] => []
+  | x :: xs => insertPair x (sortPairs xs)
+
+end SigV4.Rust
